@@ -23,7 +23,8 @@ RULE = ('one real Dispatcher + SecNode with 1..3 modules (exported / hidden para
         '__hash__ of the fake connections); schedules: '
         'systematic depth-first enumeration with a preemption bound on small scenarios, directed schedules that place '
         'the disconnect / identification of one connection at every switch point of the activation of another one '
-        '(and inside its own reset loop), then seeded random / sticky '
+        '(and inside its own reset loop), parameter-scope activations followed by the module-wide deactivate on a fresh '
+        'subscription table (bare module never activated by anybody) and on control tables, then seeded random / sticky '
         'random / random preemption points; non-trivial = at least one update message was delivered to a connection; '
         'distinct = distinct (node, scripts, executed step sequence)')
 ASSUMPTIONS = [
@@ -525,11 +526,21 @@ def _encloses(outer, inner):
     return outer[0] == 'g' or (outer[0] == 'm' and inner[0] == 'p' and inner[1] == outer[1])
 
 
+def _ends(deact, sub):
+    """the 'inactive' reply to `deactivate <deact>` certainly ends the subscription `sub` of the same connection: the
+    matching deactivate, and the module-wide `deactivate <module>` for every `<module>:<parameter>` scope of that module
+    (a module event covers the 'more specific' events below it - for activate as for deactivate - whatever the history
+    of the subscription table, in particular also when nobody ever activated the bare module).  A global deactivate
+    does not end module / parameter scopes (don't care, see _encloses)."""
+    return deact == sub or (deact[0] == 'm' and sub[0] == 'p' and sub[1] == deact[1])
+
+
 def subscriptions(case, obs):
     """per connection the subscription instances read off its own request / reply history:
     {sc, req (index of the activate request), active (index of the 'active' reply or None),
      maybe_end (index of the first later request that may end it: matching or enclosing deactivate, *IDN?, close; or None),
-     dead (index from which it is certainly ended: reply to the MATCHING deactivate / to *IDN? / connection removed; or None)}"""
+     dead (index from which it is certainly ended: reply to the MATCHING deactivate - or, for a parameter scope, to the
+     module-wide deactivate of its module - / to *IDN? / connection removed; or None)}"""
     ev = obs['events']
     res = [[] for _ in case['conns']]
     cur = [None] * len(case['conns'])       # request being processed: (index, req)
@@ -562,7 +573,7 @@ def subscriptions(case, obs):
                         sub['active'] = i
             elif e[4] == 'inactive' and r[0] == 'deact':
                 for sub in res[c]:
-                    if sub['req'] < ri and sub['dead'] is None and r[1] == sub['sc']:
+                    if sub['req'] < ri and sub['dead'] is None and _ends(r[1], sub['sc']):
                         sub['dead'] = i
             elif r[0] == 'idn' and not e[4].startswith('error_'):
                 for sub in res[c]:
@@ -784,8 +795,11 @@ def rand_script(rng, node):
                 opened.append(sc)
             script.append(req)
         elif r < 0.85:
-            # mostly the matching deactivate, sometimes an enclosing or unrelated one
+            # mostly the matching deactivate, sometimes the module-wide one of an opened parameter scope (on a table that
+            # may never have seen the bare module), sometimes an enclosing or unrelated one
             sc = rng.choice(opened) if opened and rng.random() < 0.75 else rand_scope(rng, node, 0.15)
+            if sc[0] == 'p' and rng.random() < 0.25:
+                sc = ['m', sc[1]]
             req = ['deact', sc]
             if rng.random() < 0.05:
                 req.append(1)
@@ -869,6 +883,54 @@ RACE = [
 ]
 
 
+# module-wide deactivate after parameter-scope activation(s): Dispatcher.unsubscribe(conn, '<module>') must discard the
+# connection from every '<module>:<parameter>' set WHATEVER the history of the table - in particular on a FRESH table,
+# where the bare event '<module>' has no entry because nobody ever activated it (entries are never removed, so one
+# earlier `activate <module>` by anybody changes the table for good: the CONTROL scenarios).  `order` = the sequential
+# order of the threads in the directed schedules (each runs until it waits for input / has finished).
+UNSUB = [
+    # fresh table, single connection
+    {'node': ONE, 'conns': [[['act', ['p', 0, 0]], ['deact', ['m', 0]]]], 'upds': [[[0, 0, 1]]], 'order': [['c0', 'u0']]},
+    # fresh table, two parameter scopes, a bystander that must stay subscribed
+    {'node': TWO, 'conns': [[['act', ['p', 0, 0]], ['act', ['p', 0, 1]], ['deact', ['m', 0]]], [['act', ['p', 0, 0]]]],
+     'upds': [[[0, 0, 1], [0, 1, 2]]], 'order': [['c0', 'c1', 'u0'], ['c1', 'c0', 'u0']]},
+    # fresh table for module 0; the scope of the other module and a later re-activation stay / are served
+    {'node': TWO, 'conns': [[['act', ['p', 1, 0]], ['act', ['p', 0, 1]], ['deact', ['m', 0]], ['act', ['p', 0, 0]]]],
+     'upds': [[[1, 0, 1], [0, 1, 2], [0, 0, 3]]], 'order': [['c0', 'u0']]},
+    # fresh table, the global scope of the same connection survives the module-wide deactivate
+    {'node': ONE, 'conns': [[['act', ['p', 0, 0]], ['act', ['g']], ['deact', ['m', 0]]]], 'upds': [[[0, 0, 1]]], 'order': [['c0', 'u0']]},
+    # CONTROL: another connection has activated (and left) the bare module before
+    {'node': ONE, 'conns': [[['act', ['p', 0, 0]], ['deact', ['m', 0]]], [['act', ['m', 0]], ['deact', ['m', 0]]]],
+     'upds': [[[0, 0, 1]]], 'order': [['c1', 'c0', 'u0'], ['c0', 'c1', 'u0']]},
+    # CONTROL: the connection itself has activated the bare module before
+    {'node': TWO, 'conns': [[['act', ['m', 0]], ['deact', ['m', 0]], ['act', ['p', 0, 1]], ['deact', ['m', 0]]]],
+     'upds': [[[0, 1, 1]]], 'order': [['c0', 'u0']]},
+    # CONTROL: the bare module is still active for a bystander
+    {'node': ONE, 'conns': [[['act', ['p', 0, 0]], ['deact', ['m', 0]]], [['act', ['m', 0]]]], 'upds': [[[0, 0, 1]]],
+     'order': [['c1', 'c0', 'u0'], ['c0', 'c1', 'u0']]},
+]
+
+
+def _scen(sc):
+    return {k: v for k, v in sc.items() if k != 'order'}
+
+
+def unsub_cases():
+    """directed sequential schedules of the UNSUB scenarios: the threads one after the other (so every update is announced
+    after the 'inactive' reply), and with the driver parked at its first updateLock / make_update while the connections
+    run (deactivate racing with the broadcast)"""
+    cases = []
+    for sc in UNSUB:
+        for order in sc['order']:
+            cases.append(dict(_scen(sc), sched={'kind': 'segments', 'segments': [[t, None, 1] for t in order]}))
+            conns = [t for t in order if t[0] == 'c']
+            for k in range(1, len(sc['conns'][int(conns[-1][1:])]) + 1):
+                # the last connection has received k requests, then the driver runs, then the rest
+                cases.append(dict(_scen(sc), sched={'kind': 'segments', 'segments': (
+                    [[t, None, 1] for t in conns[:-1]] + [[conns[-1], 'recv', k + 1], ['u0', None, 1], [conns[-1], None, 1]])}))
+    return cases
+
+
 def race_cases():
     """directed schedules: connection A runs until it waits for its k-th request, B until it is parked for the n-th time
     at a table operation / lock / send, then A (optionally only up to its n2-th discard, then B), then the rest"""
@@ -934,14 +996,16 @@ def gen_cases(seed, tier):
     n = {'quick': 2200, 'thorough': 15000, 'search': 15000}[tier]
     cases = [rand_case(rng) for _ in range(n)]
     # the racing scenarios also under many random schedules
-    for sc in SCENARIOS + RACE:
+    for sc in SCENARIOS + RACE + [_scen(x) for x in UNSUB]:
         for _ in range(40 if tier == 'quick' else 400):
             cases.append(dict(sc, sched=rand_sched(rng)))
+    cases.extend(unsub_cases())
     cases.extend(race_cases())
+    # systematic enumeration: the racing scenarios and the single-connection fresh-table deactivate
     if tier == 'quick':
-        cases.extend(systematic_cases(2, 150, SCENARIOS))
+        cases.extend(systematic_cases(2, 150, SCENARIOS + [_scen(UNSUB[0])]))
     else:
-        cases.extend(systematic_cases(3, 2500, SCENARIOS))
+        cases.extend(systematic_cases(3, 2500, SCENARIOS + [_scen(UNSUB[0])]))
     return cases
 
 
